@@ -158,6 +158,13 @@ pub fn run_case(_ctx: &Ctx, case: &Value, tag: usize, rep: &mut Report, mb: &mut
         let applied = a.last_step_stats().map(|s| s.slices_applied).unwrap_or(0);
         let mbm = eng::mask_of(&mut b);
         let repro = json!({"case": case, "tokens": toks});
+        let limit = |r: &Result<Vec<u32>, String>| matches!(r, Err(e) if e.contains("Too many items"));
+        if limit(&ma) != limit(&mbm) {
+            // slicing changes how much of the trie is walked, so only one of the two walks may exhaust the
+            // per-step item budget: a reported resource-limit stop, not a mask
+            rep.skip("mask-hit-item-limit");
+            break;
+        }
         if ma != mbm {
             let detail = match (&ma, &mbm) {
                 (Ok(x), Ok(y)) => {
